@@ -2813,7 +2813,9 @@ func (b *IPRouteBody) serialize(version uint8, software Software) ([]byte, error
 		binary.BigEndian.PutUint32(tmpbuf, b.tableID)
 		buf = append(buf, tmpbuf...)
 	}
-	if b.Message&messageOpaque.ToEach(version, software) > 0 {
+	// MESSAGE_OPAQUE is added in frr8 (same condition as decodeFromBytes)
+	if version == 6 && software.name == "frr" && software.version >= 8 &&
+		b.Message&messageOpaque.ToEach(version, software) > 0 {
 		tmpbuf := make([]byte, 2)
 		binary.BigEndian.PutUint16(tmpbuf, b.opaque.length)
 		buf = append(buf, tmpbuf...)           // frr: stream_putw(s, api->opaque.length);
